@@ -133,3 +133,23 @@ for _pid, (_t, _x) in _ADD.items():
     if _pid in CLAIMED:
         t0, x0, r0 = CLAIMED[_pid]
         CLAIMED[_pid] = (t0 + '; ' + _t, (x0 + ' ' + _x).strip(), r0)
+
+# additions of build session 3, rounds 8-9
+_ADD2 = {
+    'C03': ('whole-function interpretation of nlist() in exact rational arithmetic on scripted configurations (16 quick / 33 thorough) against a brute-force oracle; unique_rows2 interpreted on model tables',
+            'Also decided, for the scripted configurations only: the returned table lists for every atom exactly the atoms whose periodic distance is below the cutoff, ascending, whatever the storage sizes.'),
+    'C09': ('path-sensitive ARRAY-LIKE must-analysis on every conversion function', 'Also decided: plain numbers, lists and tuples are converted before ndarray-only attributes are read.'),
+    'C10': ('path-sensitive ARRAY-LIKE and NATIVE-VALUES must-analyses on unitconvert.model; the precedence rule of C09 shared',
+            'Also decided: a value written without a unit may be a plain number or list; what the writer stores is a plain Python value on every path (numpy scalars are rendered through repr by the XML encoder).'),
+    'C18': ('path-sensitive ARRAY-LIKE must-analysis over GammaSurface.py', 'Also decided: positions given as lists or tuples are converted before ndarray-only attributes are read.'),
+    'C19': ('model logs with the neighbour statistics after every run and runs without timing breakdown; runs without rows in the flatten model; ordered model paths',
+            'Also decided: a timing breakdown is attached to the run that printed it and a run without one has none; flattening keeps the timesteps of the other runs when a run has no rows.'),
+    'C20': ('evaluation of the name-to-function setters for every documented name', ''),
+    'C07': ('DTYPE-FLOW on the stored periodic flags; recorded reads of the cell in the writer model', 'Also decided: nothing is read from the cell or the atoms before the wrap.'),
+    'C15': ('site search on concrete distances with numpy closeness semantics', 'Also decided: the tolerance of the site search is a distance (not its square); two atoms within it are refused.'),
+    'C16': ('concrete multi-scale scenario for plane normals', 'Also decided: the unit normal of a plane does not depend on the unit of length of the cell.'),
+}
+for _pid, (_t, _x) in _ADD2.items():
+    if _pid in CLAIMED:
+        t0, x0, r0 = CLAIMED[_pid]
+        CLAIMED[_pid] = (t0 + '; ' + _t, (x0 + ' ' + _x).strip(), r0)
